@@ -120,6 +120,12 @@ func (st *solveState) exitSummary(call *ssa.Call, callee *ssa.Function) bool {
 			st.addIneq(Ineq{l})
 		}
 	}
+	for _, nq := range cf.neqs {
+		l := tmp.substLin(nq)
+		if !local(l) {
+			st.fs.neqs = append(st.fs.neqs, st.substLin(l))
+		}
+	}
 	for i := 0; i < nres; i++ {
 		r := result(i)
 		if r == nil {
